@@ -53,6 +53,12 @@ def _one_trace(args):
         except ValueError:
             # instance not constructible (e.g. worm efficiency out of range after rounding): draw another
             continue
+        except Exception as e:          # noqa
+            # anything else raised while building / simulating a legal model is a finding, not a machinery problem
+            import traceback
+            return {'id': f'{fam}{i}', 'unexpected_exception': type(e).__name__, 'where': traceback.format_exc().splitlines()[-3:],
+                    'elems': [{k: str(v) for k, v in el.items() if k in ('kind', 'teeth', 'rel', 'module', 'dref')} for el in inst['elems']],
+                    'decl_order': inst.get('decl_order'), 'family': fam, 'presentation': 'units' if i % 2 else 'SI'}
     else:
         raise Machinery('could not generate a constructible instance')
     tr['family'] = fam
@@ -267,12 +273,14 @@ def campaign(tier, seed):
             return json.load(open(cp))
         t0 = time.time()
         traces = gen_traces(tier, seed)
+        crashed = [t for t in traces if 'unexpected_exception' in t]
+        traces = [t for t in traces if 'unexpected_exception' not in t]
         t1 = time.time()
         res = validate('Trace_Solver', traces, workers_per_shard=1, shards=16, dfs_queue=True, timeout=7200)
         out = {'fails': res.fails, 'notes': res.notes, 'states': res.states, 'transitions': res.transitions,
                'n_traces': len(traces), 'gen_s': round(t1 - t0, 1), 'tlc_s': round(time.time() - t1, 1),
                'instants': sum(len(e['time']) for t in traces for e in t['epochs']),
-               'elements_hist': {}, 'families': {}, 'meta': {}, 'samples': []}
+               'elements_hist': {}, 'families': {}, 'meta': {}, 'samples': [], 'crashed': crashed}
         for t in traces:
             out['families'][t['family']] = out['families'].get(t['family'], 0) + 1
             n_el = len(t['elems'])
@@ -356,6 +364,10 @@ def run_prop(pid, tier, seed, text, known=None):
         v.extra['enumerated_grid_runs'] = len(gev)
         v.extra['enumeration'] = 'dt = m*10^-e with every m in 1..99, e in 0..3, n in 2..60, T as float(dt)*n or as decimal literal, unit in {sec,min,hour,ms}; half of the cases continued by a second run with its own (m,e,n,unit)'
         v.sample({k: gev[0][k] for k in ('id', 'm', 'e', 'n', 'unit', 'T_as')} | {'instants': len(gev[0]['after'])})
+    for t in c.get('crashed', []):
+        # a legal model whose construction or simulation raised something unexpected: every property quantified over models is affected
+        v.violation({'clauses': ['ModelRaisedUnexpectedly_' + t['unexpected_exception']], 'trace': t['id'], 'where': t['where'], 'elems': t['elems'],
+                     'decl_order': t['decl_order']})
     v.rule = text + ' | shared campaign: seeded random chains of 2..12 elements (spur / helical / worm in both orientations / joints / flywheels, every subset of optional gear data), ' \
         'motors with and without current data, loads (constant below/above stall, negative, speed-, position-, time-dependent with a step), initial speeds of either sign, ' \
         'decimal dt, schedules run / continue (other time units) / reset / rerun on the same or a new Solver, rule sets of 0..4 rules, stop conditions; half of the traces with every input ' \
